@@ -832,8 +832,12 @@ pub fn run_c06(w: &mut W) {
                 // with a non-zero length (the library's own validity rule). It must not touch the
                 // caches - in particular not the definition it names.
                 let existing: Vec<u16> = exs[pi].ix_t.keys().chain(exs[pi].ix_o.keys()).cloned().collect();
-                let id = if !existing.is_empty() && rng.chance(3, 4) { *rng.pick(&existing) } else { 256 + rng.below(4) as u16 };
-                let nf = rng.usize(4);
+                // (with no fields at all such a record is what RFC 7011 8.1 calls a template
+                // withdrawal - of one id, or with id 2 / 3 of all templates / options templates;
+                // this library keeps what it has learned: C06 says templates are never evicted)
+                let all_withdrawal = rng.chance(1, 6);
+                let id = if all_withdrawal { *rng.pick(&[2u16, 3]) } else if !existing.is_empty() && rng.chance(3, 4) { *rng.pick(&existing) } else { 256 + rng.below(4) as u16 };
+                let nf = if all_withdrawal { 0 } else { rng.usize(4) };
                 let fields: Vec<IpfixSpec> = (0..nf).map(|_| IpfixSpec { type_num: *rng.pick(&w.pools.ipfix_known), len: 0, enterprise: None }).collect();
                 let set = if rng.chance(1, 2) {
                     IpfixSet::Template { records: vec![IpfixTmpl { id, fields }], padding: vec![] }
@@ -866,6 +870,50 @@ pub fn run_c06(w: &mut W) {
                 shape.push_str("G;");
                 w.rep.count("noop.garbage", 1);
                 verdict = if snap(&sut.parsers[pi]) != before[pi] { Err(div("cache/garbage", "changed", "caches changed by input of an unknown version".into())) } else { Ok(()) };
+            } else if rng.chance(1, 3) && !(pi == np - 1 && restricted.as_ref().map(|s| !s.contains(&9)).unwrap_or(false)) {
+                // a V9 template / options-template flowset whose length is consistent and that holds
+                // one or more complete records followed by a record that does not fit in what is left:
+                // the complete records are cached, the tail is padding (records do not depend on their
+                // siblings)
+                let mut trial = exs[pi].clone();
+                let fs = if rng.chance(1, 2) {
+                    let n = 1 + rng.usize(2);
+                    let templates: Vec<V9Tmpl> = (0..n).map(|_| trial.v9_new_template(&mut rng, &cfg, &w.pools)).collect();
+                    // tail: a template record header announcing more fields than the bytes that follow
+                    let have = rng.usize(3);
+                    let mut tail = vec![];
+                    tail.extend_from_slice(&(256 + rng.below(4) as u16).to_be_bytes());
+                    tail.extend_from_slice(&((have + 1 + rng.usize(5)) as u16).to_be_bytes());
+                    for _ in 0..have {
+                        tail.extend_from_slice(&[0, 1, 0, 4]);
+                    }
+                    V9FlowSet::Template { templates, padding: tail }
+                } else {
+                    let n = 1 + rng.usize(2);
+                    let templates: Vec<V9OptTmpl> = (0..n).map(|_| trial.v9_new_opt_template(&mut rng, &cfg, &w.pools)).collect();
+                    // tail: an options template record header whose scope / option lengths exceed what follows
+                    let have = rng.usize(3);
+                    let mut tail = vec![];
+                    tail.extend_from_slice(&(256 + rng.below(4) as u16).to_be_bytes());
+                    tail.extend_from_slice(&4u16.to_be_bytes());
+                    tail.extend_from_slice(&((4 * (have + 1 + rng.usize(4))) as u16).to_be_bytes());
+                    for _ in 0..have {
+                        tail.extend_from_slice(&[0, 1, 0, 4]);
+                    }
+                    V9FlowSet::OptionsTemplate { templates, padding: tail }
+                };
+                let pkt = trial.v9_wrap(&mut rng, &cfg, vec![fs]);
+                let wire = pkt.wire();
+                let res = sut.parse(pi, &wire);
+                exs[pi] = trial;
+                shape.push_str("S;");
+                w.rep.count("template_flowsets_with_an_unfitting_last_record", 1);
+                let c = canon(&res);
+                delivered[pi].push((wire.clone(), c[1..c.len() - 1].to_string()));
+                verdict = match res.as_slice() {
+                    [NetflowPacket::V9(g)] => check_v9(&pkt, g, &mut st),
+                    r => Err(div("cache/sibling-record", "elements", format!("template flowset with complete records and an unfitting last record returned {:?}", r.iter().map(kind).collect::<Vec<_>>()))),
+                };
             } else {
                 // a template packet that ends before its only template record is complete
                 let mut trial = exs[pi].clone();
